@@ -133,6 +133,16 @@ def rule_arity(ctx: Ctx, scope: Iterable[str], rule: str = "R-ARITY", min_sites:
             n_sites += 1
             missing = list(b.missing)
             surplus = [] if callee.node.args.vararg is not None else b.extra_pos
+            # swapped positionals: the arguments are plain names that are exactly the callee's parameter names, but at other positions
+            pos_params = [a.arg for a in callee.node.args.posonlyargs + callee.node.args.args]
+            if callee.cls is not None and not callee.is_static and callee.parent is None and pos_params:
+                pos_params = pos_params[1:]
+            argn = [a.id if isinstance(a, ast.Name) else (a.attr if isinstance(a, ast.Attribute) and isinstance(a.value, ast.Name) and a.value.id == "self" else None) for a in call.args]
+            swapped = [(i, n) for i, n in enumerate(argn) if n is not None and i < len(pos_params) and n != pos_params[i] and n in pos_params and pos_params[i] in argn]
+            if swapped:
+                i, n = swapped[0]
+                ctx.violate("R-ARGORDER", short(fi.qualname), f"{callee.name}:{n}", f"`{n}` is passed at the position of parameter `{pos_params[i]}` of {short(callee.qualname)} while `{pos_params[i]}` is passed elsewhere: "
+                            "positional arguments are swapped", fi=fi, node=call, expected=f"{callee.name}({', '.join(pos_params[:len(call.args)])})", found=ast.unparse(call)[:160])
             if missing or surplus:
                 why = (f"required parameter(s) {missing} of {short(callee.qualname)} are not bound" if missing else "") + (
                     f"{'; ' if missing else ''}{len(surplus)} positional argument(s) too many for {short(callee.qualname)}" if surplus else "")
